@@ -26,7 +26,7 @@ notes = {
 sweep = {}
 for line in open(sys.argv[1]):
     parts = line.split()
-    if len(parts) >= 2 and parts[0].endswith("-4"):
+    if len(parts) >= 2 and parts[0].endswith("-4") and parts[1].startswith("exit="):
         sweep[parts[0][:-2]] = (parts[1], parts[2:])
 for pid, (pkg, needs, hist) in notes.items():
     rc, labels = sweep.get(pid, ("exit=?", []))
